@@ -21,6 +21,7 @@ ASSUMPTIONS = ["tetrahedral complexes on <= 6 vertices (with interior edge from 
 BOUNDS = {"quick": "TET(4), TET(5) all labelled (27 complexes) x {sorted, positive, every single position-transposition of one cell}; TET(6) isomorphism classes (16) x {sorted, positive}; repo tests/data *.tet; cache-state BFS over histories of <= 2 events (every accessor evaluated in every state reached)",
           "thorough": "TET(<=6) all labelled (2449) x {sorted, positive}; TET(<=5) with <=2 position transpositions; TET(6) classes with <=1; cache-state BFS to the fixed point for the base listings of TET(<=5), histories of <= 3 events otherwise"}
 BATCH = 6
+DUP = [False]
 DEPTH = [2]     # bound on the number of state-changing events per history (set per tier in run_task)
 
 
@@ -83,6 +84,12 @@ def tasks(tier):
             out.append({"sort": sort, "depth": depth, "depth_base": depth if tier == "quick" else None, "complexes": [x]})
         out.append({"sort": sort, "depth": depth, "file": "cube.tet"})
         out.append({"sort": sort, "depth": depth, "file": "join.tet"})
+    # configuration deviation: config.display_duplicate_attribute_warning = True makes create_attribute hand back an
+    # existing attribute of the same name instead of a fresh one (the border flags of vertices and edges are both
+    # called "border"); base listings only, sorting on
+    base = [[x[0], x[1], x[2], 0, False] for x in ins if not x[4]]
+    for i in range(0, len(base), 4):
+        out.append({"sort": True, "dup": True, "depth": depth, "depth_base": depth, "complexes": base[i:i + 4]})
     return out
 
 
@@ -418,7 +425,7 @@ def _explore(M, name, n, pts, cells, sort, rep, events, build):
 
     def icls(warm):
         return (f"tet:cells{'1' if len(o.C) == 1 else '2+'}:{'positive' if positive else 'mixed-orientation'}:"
-                f"sort={sort}:{'warm' if warm else 'fresh'}")
+                f"sort={sort}:{'warm' if warm else 'fresh'}" + (":duplicate_attribute_flag" if DUP[0] else ""))
     resets = {"connectivity.clear": lambda m: m.connectivity.clear()}
     seen = explore("C03", build, o, events, resets, _state_key, _content_key, rep, icls,
                    {"mesh": name, "n": n, "cells": [list(c) for c in cells], "sort": sort}, max_states=4000, max_depth=DEPTH[0])
@@ -439,6 +446,9 @@ def _explore(M, name, n, pts, cells, sort, rep, events, build):
 def run_task(task, rep: Report):
     import mouette as M
     old = M.config.sort_neighborhoods
+    old_dup = M.config.display_duplicate_attribute_warning
+    M.config.display_duplicate_attribute_warning = bool(task.get("dup", False))
+    DUP[0] = bool(task.get("dup", False))
     sort = bool(task["sort"])
     DEPTH[0] = task.get("depth", 2)
     M.config.sort_neighborhoods = sort
@@ -466,6 +476,7 @@ def run_task(task, rep: Report):
                 _explore(M, f"{name}:{tag}", n, pts, v, sort, rep, events, lambda v=v: F.build_volume(pts, v, tuple))
     finally:
         M.config.sort_neighborhoods = old
+        M.config.display_duplicate_attribute_warning = old_dup
 
 
 def finish(tier, rep: Report):
